@@ -38,7 +38,7 @@ func init() {
 		funcs: []glFunc{{name: "searchEytzinger"}, {name: "prefixToUint16"}, {name: "readFullAt"}, {name: "readUint64Le"},
 			{name: "Hash"}, {recv: "Reader", name: "Has"}},
 		externs: []string{"io.ReaderAt.ReadAt:out0", "io.NewSectionReader", "xxhash.Sum64"}, recvArg: true})
-	registerGoLite(glGroup{id: "goliterdmain", out: "GoLiteRdMain.v", pkgDir: ".", funcs: []glFunc{{name: "readFullAt"}}, externs: rdExt})
+	registerGoLite(glGroup{id: "goliterdmain", out: "GoLiteRdMain.v", pkgDir: ".", funcs: []glFunc{{name: "readFullAt"}, {name: "ReadAllFromReaderAt"}}, externs: rdExt})
 	registerGoLite(glGroup{id: "golitec03", out: "GoLiteC03.v", pkgDir: ".",
 		funcs:   []glFunc{{name: "parseNodeFromSection"}, {name: "readFullAt"}, {name: "readNodeFromReaderAtWithOffsetAndSize"}, {name: "readSectionFromReaderAt"}},
 		externs: []string{"binary.Uvarint", "bytes.NewReader", "cid.CidFromReader", "*.Equals", "io.ReaderAt.ReadAt:out0"},
